@@ -162,6 +162,39 @@ def check_side(facts, sc):
                     okk = False
         if seen == 0:
             okk = False
+    elif kind == "table_rows":
+        # every construction of the literal table has 1 << (lc + lp) rows where lc and lp belong to the same properties value
+        # that the function stores as the decoder's properties (and the fill branch is taken only when lc + lp is unchanged)
+        seen = 0
+        for b in facts.bodies:
+            if b.promoted is not None:
+                continue
+            tm = None
+            for blk in b.calls():
+                if (callee_name(blk.term) or "") != sc["callee"]:
+                    continue
+                seen += 1
+                tm = tm or terms_of(b)
+                a = tm.of_operand(blk.term.args[1])
+                rows = a[2][0] if (isinstance(a, tuple) and a[0] == "agg" and a[1] == "tuple" and a[2]) else None
+                good = False
+                if rows and rows[0] == "Shl" and rows[1] == ("const", 1) and rows[2][0] == "Add":
+                    x, y = rows[2][1], rows[2][2]
+                    if x[0] == "field" and y[0] == "field" and {x[1], y[1]} == {"lc", "lp"} and x[2] == y[2] and x[2][0] == "arg":
+                        # the same value is what gets stored as lzma_props
+                        stored = False
+                        for blk2 in b.blocks:
+                            for s in blk2.stmts:
+                                if s.k == "assign" and ((s.place.proj and s.place.proj[-1][0] == "field" and s.place.proj[-1][2] == sc["field"]) or
+                                                        (s.rv.k == "aggregate" and s.rv.agg == "adt" and s.rv.adt_name == sc["adt"])):
+                                    t2 = tm.of_rvalue(s.rv, 0)
+                                    if flow.term_has(t2, lambda q: q == x[2]):
+                                        stored = True
+                        good = stored
+                if not good:
+                    okk = False
+        if seen == 0:
+            okk = False
     else:
         okk = False
     _SIDE[key] = okk
